@@ -89,6 +89,9 @@ let c07_parse_case toks =
   let (nsplit, toks) = c07_int_after "SPLIT" toks in
   let (split, toks) = c07_take nsplit toks in
   let (_, toks) = c07_int_after "FINALSTATES" toks in
+  (* LAYOUT <ts> <par> <st> <pre>: in which files the harness puts the tables / stale output file; the
+     model is about the tables themselves *)
+  let toks = (match toks with "LAYOUT" :: _ :: _ :: _ :: _ :: r -> r | _ -> toks) in
   let toks = c07_expect "END" toks in
   let sel = { sel_outfile = (outfile = 1);
               sel_outputs_for = flagval "-outputs-for" flags;
